@@ -1258,6 +1258,7 @@ func (s *ScopedKeyManager) nextAddresses(ns walletdb.ReadWriteBucket,
 
 		// Set the last address and next address for tracking.
 		ma := addressInfo[len(addressInfo)-1].managedAddr
+		s.lockLastAddr(acctInfo, internal)
 		if internal {
 			acctInfo.nextInternalIndex = nextIndex
 			acctInfo.lastInternalAddr = ma
@@ -1452,6 +1453,7 @@ func (s *ScopedKeyManager) extendAddresses(ns walletdb.ReadWriteBucket,
 
 	// Set the last address and next address for tracking.
 	ma := addressInfo[len(addressInfo)-1].managedAddr
+	s.lockLastAddr(acctInfo, internal)
 	if internal {
 		acctInfo.nextInternalIndex = nextIndex
 		acctInfo.lastInternalAddr = ma
@@ -1461,6 +1463,19 @@ func (s *ScopedKeyManager) extendAddresses(ns walletdb.ReadWriteBucket,
 	}
 
 	return nil
+}
+
+// lockLastAddr clears the clear text private key of the account's current last
+// address object of a branch, which is about to be replaced and may not be
+// reachable from the address cache.
+func (s *ScopedKeyManager) lockLastAddr(acctInfo *accountInfo, internal bool) {
+	last := acctInfo.lastExternalAddr
+	if internal {
+		last = acctInfo.lastInternalAddr
+	}
+	if a, ok := last.(*managedAddress); ok {
+		a.lock()
+	}
 }
 
 // NextExternalAddresses returns the specified number of next chained addresses
@@ -2426,6 +2441,11 @@ func (s *ScopedKeyManager) MarkUsed(ns walletdb.ReadWriteBucket,
 
 	// Clear caches which might have stale entries for used addresses
 	s.mtx.Lock()
+	if ma, ok := s.addrs[addrKey(addressID)].(interface{ lock() }); ok {
+		// Don't leave the clear text key or script of the dropped entry
+		// behind.
+		ma.lock()
+	}
 	delete(s.addrs, addrKey(addressID))
 	s.mtx.Unlock()
 	return nil
